@@ -26,6 +26,7 @@ import PrqlModel.Drv.Flatten
 import PrqlModel.Drv.CteOrder
 import PrqlModel.Drv.Preprocess
 import PrqlModel.Drv.Positional
+import PrqlModel.Drv.SelectPipe
 namespace Drv
 
 def handlers : List (List String → Option String) := [
@@ -50,7 +51,8 @@ def handlers : List (List String → Option String) := [
   Drv.Flatten.handle,
   Drv.CteOrder.handle,
   Drv.Preprocess.handle,
-  Drv.Positional.handle
+  Drv.Positional.handle,
+  Drv.SelectPipe.handle
 ]
 
 def handle (fields : List String) : String :=
